@@ -269,10 +269,13 @@ impl<'a, W: Write> Exec<'a, W> {
                 let c: usize = toks[1].parse().unwrap();
                 let ip: IpAddr = toks[2].parse().unwrap();
                 let addr = self.listener.local_addr().unwrap();
-                let client = TcpStream::connect(addr).await.unwrap();
+                let client = connect_retry(addr).await;
                 let (server, _) = self.listener.accept().await.unwrap();
                 server.set_nodelay(true).ok();
                 client.set_nodelay(true).ok();
+                // abortive close of the client end: tens of thousands of short-lived loopback connections
+                // must not pile up in TIME_WAIT (the `eof` operation still sends a proper FIN by shutdown)
+                client.set_linger(Some(Duration::from_secs(0))).ok();
                 let framed = Framed::new(
                     DualTcpStream::PlainStream(server),
                     IRCLinesCodec::new_with_max_length(2000),
@@ -438,8 +441,41 @@ impl<'a, W: Write> Exec<'a, W> {
     }
 }
 
+// connect / bind with patience: under heavy parallel use the ephemeral port range can be exhausted for a moment
+pub(crate) async fn connect_retry(addr: std::net::SocketAddr) -> TcpStream {
+    let mut n = 0;
+    loop {
+        match TcpStream::connect(addr).await {
+            Ok(s) => return s,
+            Err(e) => {
+                n += 1;
+                if n > 300 {
+                    panic!("connect {}: {}", addr, e);
+                }
+                tokio::time::sleep(Duration::from_millis(200)).await;
+            }
+        }
+    }
+}
+
+pub(crate) async fn bind_retry() -> TcpListener {
+    let mut n = 0;
+    loop {
+        match TcpListener::bind("127.0.0.1:0").await {
+            Ok(l) => return l,
+            Err(e) => {
+                n += 1;
+                if n > 300 {
+                    panic!("bind: {}", e);
+                }
+                tokio::time::sleep(Duration::from_millis(200)).await;
+            }
+        }
+    }
+}
+
 async fn run_seq<W: Write>(cfg: MainConfig, ops: &[&str], out: &mut W) {
-    let listener = TcpListener::bind("127.0.0.1:0").await.unwrap();
+    let listener = bind_retry().await;
     let mut ex = Exec {
         ms: MainState::new_from_config(cfg),
         listener,
